@@ -74,6 +74,20 @@ def run(ctx):
                 if rng.random() < 0.2:
                     c["tol"] = hexf(1e-4)
                 cases.append(c)
+        # directed: short inputs scaled below 1 (non-corners of degree 1 and 2), which only the identity coefficient of F~F+G~G exposes
+        for d in (1, 2):
+            for rep in range(3 if quick else 12):
+                ph = gen_phases(rng, d, rng.choice(["generic", "moderate", "symmetric"]))
+                ph = (ph + [0.1] * (d + 1))[: d + 1]
+                pre, pim = Q.corner_of_phases(ph)
+                f = [0.5, 0.9, 0.99, 0.999][rep % 4]
+                cases.append({"fn": "completion", "coefs": Q.cplx_hex([x * f for x in pre], [x * f for x in pim]), "complex": True,
+                              "coef_type": "P", "kind": "short", "mode": "scaled", "timeout": 120})
+            for cre, cim in ((0.9, 0.0), (0.0, 0.7), (0.6, 0.6), (-0.5, 0.2)):
+                pre = [0.0] * d + [cre]
+                pim = [0.0] * d + [cim]
+                cases.append({"fn": "completion", "coefs": Q.cplx_hex(pre, pim), "complex": True, "coef_type": "P", "kind": "monomial",
+                              "mode": "scaled", "timeout": 120})
     impl = run_impl(cases, timeout=3000)
     lines, keep = [], []
     for c, r in zip(cases, impl):
